@@ -588,6 +588,13 @@ def int_binop(op, a, b):
             return a
         for l in smt.bit_lemma_instances('or', x, y):
             _fact(l)
+        # (t << k) | q == (t << k) + q  for t >= 0, 0 <= q < 2^k  (disjoint bit ranges; `t << k` is built as t * 2^k
+        # above).  Proved in BV for k = 1..16 by pyvc/gen1.py:prove_shift_or_lemma.
+        for (p_, q_) in ((x, y), (y, x)):
+            if z3.is_app(p_) and p_.decl().kind() == z3.Z3_OP_MUL and p_.num_args() == 2:
+                for (t_, c_) in ((p_.arg(0), p_.arg(1)), (p_.arg(1), p_.arg(0))):
+                    if z3.is_int_value(c_) and 2 <= c_.as_long() <= 65536 and _is_pow2_minus1(c_.as_long() - 1):
+                        _fact(z3.Implies(z3.And(t_ >= 0, 0 <= q_, q_ < c_.as_long()), smt.bor(x, y) == p_ + q_))
         return VInt(smt.bor(x, y))
     if op == '^':
         if cx is not None and cy is not None:
